@@ -85,4 +85,14 @@ var c07Benign = []core.Mutant{
 		Find:    "\tif s.err != nil || s.closed || s.ctx.Err() != nil {\n\t\treturn false\n\t}\n\n\ts.next, s.err = s.decoder.Next()\n\treturn s.err == nil\n}\n",
 		Replace: "\tif s.stopped() {\n\t\treturn false\n\t}\n\n\ts.next, s.err = s.decoder.Next()\n\treturn s.err == nil\n}\n\nfunc (s *Scanner) stopped() bool {\n\tif s.err != nil {\n\t\treturn true\n\t}\n\n\treturn s.closed || s.ctx.Err() != nil\n}\n",
 	},
+	{ // the reader goroutine is a method; it receives the first data blob as a parameter that is nil when the stream starts with a header and tests that instead of the header type
+		Name: "reader-method-first-blob-param", File: "osmpbf/decode.go",
+		Find:    "\n\t// start reading OSMData\n\tgo func() {\n\t\tdefer dec.wg.Done()\n\t\tdefer func() {\n\t\t\tfor _, input := range dec.inputs {\n\t\t\t\tclose(input)\n\t\t\t}\n\t\t}()\n\n\t\tvar (\n\t\t\ti   int\n\t\t\terr error\n\t\t)\n\n\t\t// On restart the first block may not be a header and will need to be\n\t\t// added to the first input.\n\t\tif blobHeader.GetType() != osmHeaderType {\n\t\t\tdec.inputs[0] <- iPair{Offset: 0, Blob: blob, Err: err}\n\n\t\t\ti = (i + 1) % n\n\t\t}\n\n\t\tfor dec.ctx.Err() == nil && err == nil {\n\t\t\tinput := dec.inputs[i]\n\t\t\ti = (i + 1) % n\n\n\t\t\toffset := dec.bytesRead\n\t\t\tblobHeader, blob, err = dec.readFileBlock(sizeBuf, headerBuf, blobBuf)\n\t\t\tif err == nil && blobHeader.GetType() != osmDataType {\n\t\t\t\terr = fmt.Errorf(\"unexpected fileblock of type %s\", blobHeader.GetType())\n\t\t\t}\n\n\t\t\tpair := iPair{Offset: offset, Blob: blob}\n\t\t\tif err != nil {\n\t\t\t\tpair = iPair{Err: err}\n\t\t\t}\n\n\t\t\tselect {\n\t\t\tcase input <- pair:\n\t\t\tcase <-dec.ctx.Done():\n\t\t\t}\n\t\t}\n\t}()\n\n\tgo func() {\n\t\tdefer dec.wg.Done()\n\t\tdefer func() {\n\t\t\tclose(dec.serializer)\n\t\t\tdec.cancel()\n\t\t}()\n\n\t\tfor i := 0; ; i = (i + 1) % n {\n\t\t\toutput := dec.outputs[i]\n\n\t\t\tvar p oPair\n\t\t\tselect {\n\t\t\tcase p = <-output:\n\t\t\tcase <-dec.ctx.Done():\n\t\t\t\treturn\n\t\t\t}\n\n\t\t\tselect {\n\t\t\tcase dec.serializer <- p:\n\t\t\tcase <-dec.ctx.Done():\n\t\t\t\treturn\n\t\t\t}\n\n\t\t\tif p.Err != nil {\n\t\t\t\treturn\n\t\t\t}\n\t\t}\n\t}()\n\n\treturn nil\n}",
+		Replace: "\n\t// the first block is left over for the reader when it is not the header\n\tvar first *osmpbf.Blob\n\tif blobHeader.GetType() != osmHeaderType {\n\t\tfirst = blob\n\t}\n\n\t// start reading OSMData\n\tgo dec.readBlocks(n, first, sizeBuf, headerBuf, blobBuf)\n\n\tgo func() {\n\t\tdefer dec.wg.Done()\n\t\tdefer func() {\n\t\t\tclose(dec.serializer)\n\t\t\tdec.cancel()\n\t\t}()\n\n\t\tfor i := 0; ; i = (i + 1) % n {\n\t\t\toutput := dec.outputs[i]\n\n\t\t\tvar p oPair\n\t\t\tselect {\n\t\t\tcase p = <-output:\n\t\t\tcase <-dec.ctx.Done():\n\t\t\t\treturn\n\t\t\t}\n\n\t\t\tselect {\n\t\t\tcase dec.serializer <- p:\n\t\t\tcase <-dec.ctx.Done():\n\t\t\t\treturn\n\t\t\t}\n\n\t\t\tif p.Err != nil {\n\t\t\t\treturn\n\t\t\t}\n\t\t}\n\t}()\n\n\treturn nil\n}\n\nfunc (dec *decoder) readBlocks(n int, first *osmpbf.Blob, sizeBuf, headerBuf, blobBuf []byte) {\n\tvar blobHeader *osmpbf.BlobHeader\n\tvar blob *osmpbf.Blob\n\tdefer dec.wg.Done()\n\tdefer func() {\n\t\tfor _, input := range dec.inputs {\n\t\t\tclose(input)\n\t\t}\n\t}()\n\n\tvar (\n\t\ti   int\n\t\terr error\n\t)\n\n\t// On restart the first block may not be a header and will need to be\n\t// added to the first input.\n\tif first != nil {\n\t\tdec.inputs[0] <- iPair{Offset: 0, Blob: first}\n\n\t\ti = (i + 1) % n\n\t}\n\n\tfor dec.ctx.Err() == nil && err == nil {\n\t\tinput := dec.inputs[i]\n\t\ti = (i + 1) % n\n\n\t\toffset := dec.bytesRead\n\t\tblobHeader, blob, err = dec.readFileBlock(sizeBuf, headerBuf, blobBuf)\n\t\tif err == nil && blobHeader.GetType() != osmDataType {\n\t\t\terr = fmt.Errorf(\"unexpected fileblock of type %s\", blobHeader.GetType())\n\t\t}\n\n\t\tpair := iPair{Offset: offset, Blob: blob}\n\t\tif err != nil {\n\t\t\tpair = iPair{Err: err}\n\t\t}\n\n\t\tselect {\n\t\tcase input <- pair:\n\t\tcase <-dec.ctx.Done():\n\t\t}\n\t}\n}",
+	},
+	{ // the worker goroutine is a method that allocates its own decoder value
+		Name: "worker-method-own-decoder", File: "osmpbf/decode.go",
+		Find:    "\n\t\tdd := &dataDecoder{scanner: dec.scanner}\n\n\t\tgo func() {\n\t\t\tdefer close(output)\n\t\t\tdefer dec.wg.Done()\n\n\t\t\tfor p := range input {\n\t\t\t\tvar out oPair\n\t\t\t\tif p.Err == nil {\n\t\t\t\t\t// send decoded objects or decoding error\n\t\t\t\t\tobjects, err := dd.Decode(p.Blob)\n\t\t\t\t\tout = oPair{Offset: p.Offset, Objects: objects, Err: err}\n\t\t\t\t} else {\n\t\t\t\t\tout = oPair{Err: p.Err} // send input error as is\n\t\t\t\t}\n\n\t\t\t\tselect {\n\t\t\t\tcase output <- out:\n\t\t\t\tcase <-dec.ctx.Done():\n\t\t\t\t}\n\t\t\t}\n\t\t}()\n\n\t\tdec.inputs = append(dec.inputs, input)\n\t\tdec.outputs = append(dec.outputs, output)\n\t}\n\n\t// start reading OSMData\n\tgo func() {\n\t\tdefer dec.wg.Done()\n\t\tdefer func() {\n\t\t\tfor _, input := range dec.inputs {\n\t\t\t\tclose(input)\n\t\t\t}\n\t\t}()\n\n\t\tvar (\n\t\t\ti   int\n\t\t\terr error\n\t\t)\n\n\t\t// On restart the first block may not be a header and will need to be\n\t\t// added to the first input.\n\t\tif blobHeader.GetType() != osmHeaderType {\n\t\t\tdec.inputs[0] <- iPair{Offset: 0, Blob: blob, Err: err}\n\n\t\t\ti = (i + 1) % n\n\t\t}\n\n\t\tfor dec.ctx.Err() == nil && err == nil {\n\t\t\tinput := dec.inputs[i]\n\t\t\ti = (i + 1) % n\n\n\t\t\toffset := dec.bytesRead\n\t\t\tblobHeader, blob, err = dec.readFileBlock(sizeBuf, headerBuf, blobBuf)\n\t\t\tif err == nil && blobHeader.GetType() != osmDataType {\n\t\t\t\terr = fmt.Errorf(\"unexpected fileblock of type %s\", blobHeader.GetType())\n\t\t\t}\n\n\t\t\tpair := iPair{Offset: offset, Blob: blob}\n\t\t\tif err != nil {\n\t\t\t\tpair = iPair{Err: err}\n\t\t\t}\n\n\t\t\tselect {\n\t\t\tcase input <- pair:\n\t\t\tcase <-dec.ctx.Done():\n\t\t\t}\n\t\t}\n\t}()\n\n\tgo func() {\n\t\tdefer dec.wg.Done()\n\t\tdefer func() {\n\t\t\tclose(dec.serializer)\n\t\t\tdec.cancel()\n\t\t}()\n\n\t\tfor i := 0; ; i = (i + 1) % n {\n\t\t\toutput := dec.outputs[i]\n\n\t\t\tvar p oPair\n\t\t\tselect {\n\t\t\tcase p = <-output:\n\t\t\tcase <-dec.ctx.Done():\n\t\t\t\treturn\n\t\t\t}\n\n\t\t\tselect {\n\t\t\tcase dec.serializer <- p:\n\t\t\tcase <-dec.ctx.Done():\n\t\t\t\treturn\n\t\t\t}\n\n\t\t\tif p.Err != nil {\n\t\t\t\treturn\n\t\t\t}\n\t\t}\n\t}()\n\n\treturn nil\n}",
+		Replace: "\n\t\tgo dec.decodeBlocks(input, output)\n\n\t\tdec.inputs = append(dec.inputs, input)\n\t\tdec.outputs = append(dec.outputs, output)\n\t}\n\n\t// start reading OSMData\n\tgo func() {\n\t\tdefer dec.wg.Done()\n\t\tdefer func() {\n\t\t\tfor _, input := range dec.inputs {\n\t\t\t\tclose(input)\n\t\t\t}\n\t\t}()\n\n\t\tvar (\n\t\t\ti   int\n\t\t\terr error\n\t\t)\n\n\t\t// On restart the first block may not be a header and will need to be\n\t\t// added to the first input.\n\t\tif blobHeader.GetType() != osmHeaderType {\n\t\t\tdec.inputs[0] <- iPair{Offset: 0, Blob: blob, Err: err}\n\n\t\t\ti = (i + 1) % n\n\t\t}\n\n\t\tfor dec.ctx.Err() == nil && err == nil {\n\t\t\tinput := dec.inputs[i]\n\t\t\ti = (i + 1) % n\n\n\t\t\toffset := dec.bytesRead\n\t\t\tblobHeader, blob, err = dec.readFileBlock(sizeBuf, headerBuf, blobBuf)\n\t\t\tif err == nil && blobHeader.GetType() != osmDataType {\n\t\t\t\terr = fmt.Errorf(\"unexpected fileblock of type %s\", blobHeader.GetType())\n\t\t\t}\n\n\t\t\tpair := iPair{Offset: offset, Blob: blob}\n\t\t\tif err != nil {\n\t\t\t\tpair = iPair{Err: err}\n\t\t\t}\n\n\t\t\tselect {\n\t\t\tcase input <- pair:\n\t\t\tcase <-dec.ctx.Done():\n\t\t\t}\n\t\t}\n\t}()\n\n\tgo func() {\n\t\tdefer dec.wg.Done()\n\t\tdefer func() {\n\t\t\tclose(dec.serializer)\n\t\t\tdec.cancel()\n\t\t}()\n\n\t\tfor i := 0; ; i = (i + 1) % n {\n\t\t\toutput := dec.outputs[i]\n\n\t\t\tvar p oPair\n\t\t\tselect {\n\t\t\tcase p = <-output:\n\t\t\tcase <-dec.ctx.Done():\n\t\t\t\treturn\n\t\t\t}\n\n\t\t\tselect {\n\t\t\tcase dec.serializer <- p:\n\t\t\tcase <-dec.ctx.Done():\n\t\t\t\treturn\n\t\t\t}\n\n\t\t\tif p.Err != nil {\n\t\t\t\treturn\n\t\t\t}\n\t\t}\n\t}()\n\n\treturn nil\n}\n\nfunc (dec *decoder) decodeBlocks(input <-chan iPair, output chan<- oPair) {\n\tdd := &dataDecoder{scanner: dec.scanner}\n\tdefer close(output)\n\tdefer dec.wg.Done()\n\n\tfor p := range input {\n\t\tvar out oPair\n\t\tif p.Err == nil {\n\t\t\t// send decoded objects or decoding error\n\t\t\tobjects, err := dd.Decode(p.Blob)\n\t\t\tout = oPair{Offset: p.Offset, Objects: objects, Err: err}\n\t\t} else {\n\t\t\tout = oPair{Err: p.Err} // send input error as is\n\t\t}\n\n\t\tselect {\n\t\tcase output <- out:\n\t\tcase <-dec.ctx.Done():\n\t\t}\n\t}\n}",
+	},
 }
